@@ -321,11 +321,12 @@ Proof.
   rewrite app_length, le_bytes_length, IH. reflexivity.
 Qed.
 
-Lemma content_length base all it : length (content base all it) = size_of all it.
+Lemma content_length base lab all it : length (content base lab all it) = size_of all it.
 Proof.
   destruct it as [nm t els|nm len|nm tg d|nm l1 l2 d|nm fn|rt body| |k]; simpl; try reflexivity.
   - unfold known. rewrite map_length. apply flat_map_le_length.
   - apply repeat_length.
+  - destruct l2; reflexivity.
   - destruct (nth_error all fn) as [[| | | | |rt body| |]|]; try reflexivity.
     destruct rt; unfold known; simpl; reflexivity.
 Qed.
@@ -345,14 +346,14 @@ Proof.
 Qed.
 
 (* the bytes found at an item's place in its section's image are the item's contents *)
-Lemma section_contents_proof base all i p it :
+Lemma section_contents_proof base lab all i p it :
   nth_error all i = Some it -> place_of all i = Some p ->
-  slice (image base all (p_head p)) (p_off p) (size_of all it) = content base all it.
+  slice (image base lab all (p_head p)) (p_off p) (size_of all it) = content base lab all it.
 Proof.
   intros Hi Hp. destruct (placed_in_run all i p it Hi Hp) as (A1 & A2 & A3 & A4).
   rewrite (offset_is_sum_proof all i p it Hi Hp). unfold slice, image, sum_sizes.
-  apply (slice_flat_map (content base all) (size_of all) (members all (p_head p))
-                        (content_length base all) (i - p_head p) it A4).
+  apply (slice_flat_map (content base lab all) (size_of all) (members all (p_head p))
+                        (content_length base lab all) (i - p_head p) it A4).
 Qed.
 
 Lemma decode_le_bytes n : forall v, decode_le (le_bytes n v) = (v mod 256 ^ Z.of_nat n)%Z.
@@ -367,43 +368,43 @@ Lemma pow256_8 : (256 ^ Z.of_nat 8 = 2 ^ 64)%Z.
 Proof. reflexivity. Qed.
 
 (* a ref item holds the referenced item's address plus the displacement, as a 64-bit word *)
-Lemma ref_value_proof base all i p nm target disp :
+Lemma ref_value_proof base lab all i p nm target disp :
   nth_error all i = Some (IRef nm target disp) -> place_of all i = Some p ->
   exists bytes,
-    slice (image base all (p_head p)) (p_off p) 8 = map Some bytes /\
+    slice (image base lab all (p_head p)) (p_off p) 8 = map Some bytes /\
     decode_le bytes = u64 (addr_of base all target + disp).
 Proof.
   intros Hi Hp. exists (le_bytes 8 (u64 (addr_of base all target + disp))). split.
-  - apply (section_contents_proof base all i p _ Hi Hp).
+  - apply (section_contents_proof base lab all i p _ Hi Hp).
   - rewrite decode_le_bytes, pow256_8. unfold u64, uwrap. apply Z.mod_mod. discriminate.
 Qed.
 
 (* an expr item holds the value of its expression function truncated to the result type's size
    (all of it for integer/pointer/float/double; the 10 significant bytes for long double) *)
-Lemma expr_value_proof base all i p nm fn rt body :
+Lemma expr_value_proof base lab all i p nm fn rt body :
   nth_error all i = Some (IExpr nm fn) -> nth_error all fn = Some (IFunc rt body) ->
   place_of all i = Some p ->
   let n := match rt with TLD => 10 | _ => tsize rt end in
   exists bytes,
-    firstn n (slice (image base all (p_head p)) (p_off p) (tsize rt)) = map Some bytes /\
+    firstn n (slice (image base lab all (p_head p)) (p_off p) (tsize rt)) = map Some bytes /\
     decode_le bytes = (eval base all body mod 256 ^ Z.of_nat n)%Z.
 Proof.
   intros Hi Hf Hp n. exists (le_bytes n (eval base all body)). split.
-  - pose proof (section_contents_proof base all i p _ Hi Hp) as H. simpl in H. rewrite Hf in H.
+  - pose proof (section_contents_proof base lab all i p _ Hi Hp) as H. simpl in H. rewrite Hf in H.
     rewrite H. subst n. destruct rt; simpl; reflexivity.
   - apply decode_le_bytes.
 Qed.
 
-Lemma data_contents_proof base all i p nm t els :
+Lemma data_contents_proof base lab all i p nm t els :
   nth_error all i = Some (IData nm t els) -> place_of all i = Some p ->
-  slice (image base all (p_head p)) (p_off p) (length els * tsize t)
+  slice (image base lab all (p_head p)) (p_off p) (length els * tsize t)
   = map Some (flat_map (le_bytes (tsize t)) els).
-Proof. intros Hi Hp. apply (section_contents_proof base all i p _ Hi Hp). Qed.
+Proof. intros Hi Hp. apply (section_contents_proof base lab all i p _ Hi Hp). Qed.
 
-Lemma bss_contents_proof base all i p nm len :
+Lemma bss_contents_proof base lab all i p nm len :
   nth_error all i = Some (IBss nm len) -> place_of all i = Some p ->
-  slice (image base all (p_head p)) (p_off p) len = repeat (Some 0%Z) len.
-Proof. intros Hi Hp. apply (section_contents_proof base all i p _ Hi Hp). Qed.
+  slice (image base lab all (p_head p)) (p_off p) len = repeat (Some 0%Z) len.
+Proof. intros Hi Hp. apply (section_contents_proof base lab all i p _ Hi Hp). Qed.
 
 (* a module that passes the load-time checks only has expr items over genuine expression
    functions, and its lrefs have a function to refer to *)
@@ -420,4 +421,19 @@ Proof.
   - intros (it & Hin & Hit). apply andb_false_iff in Hl. destruct Hl as [Hl|Hl].
     + assert (existsb is_lref all = true) by (apply existsb_exists; exists it; auto). congruence.
     + apply negb_false_iff in Hl. apply existsb_exists in Hl. exact Hl.
+Qed.
+
+(* a label reference holds the label's address (or the difference of two label addresses) plus the
+   displacement, as a 64-bit word *)
+Lemma lref_value_proof base lab all i p nm l1 l2 disp :
+  nth_error all i = Some (ILref nm l1 l2 disp) -> place_of all i = Some p ->
+  exists bytes,
+    slice (image base lab all (p_head p)) (p_off p) 8 = map Some bytes /\
+    decode_le bytes = u64 (match l2 with None => lab l1 + disp | Some l2 => lab l1 - lab l2 + disp end).
+Proof.
+  intros Hi Hp.
+  exists (le_bytes 8 (u64 (match l2 with None => lab l1 + disp | Some l2 => lab l1 - lab l2 + disp end))). split.
+  - pose proof (section_contents_proof base lab all i p _ Hi Hp) as H. simpl in H. rewrite H.
+    destruct l2; reflexivity.
+  - rewrite decode_le_bytes, pow256_8. unfold u64, uwrap. apply Z.mod_mod. discriminate.
 Qed.
